@@ -77,9 +77,11 @@ def fold_family(world: World, res: Result, tier: str, only=None):
         ngate = ncand = nconf = 0
         harmless = []
         try:
-            for ks, lens in C04.instantiate(kinds, "quick"):
+            for (ks, lens), region in itertools.product(C04.instantiate(kinds, "quick"), SB.REGIONS.get(name, [None])):
                 g = C04.Gen(world, ex)
                 pairs = [g.const(k, ln) for k, ln in zip(ks, lens)]
+                if region is not None:
+                    g.assume += region(*[C04.spec_arg(sv) for _, sv in pairs])
                 st = ex.new_state()
                 st.pc += list(g.assume)
                 terms = [ex.alloc(st, world.adt("Term", "Constant", world.rc(c))) for c, _ in pairs]
